@@ -19,9 +19,10 @@ LEVEL = 'exploration'
 RULE = ('grid (exhaustive every run): direction {request->server, response->client} x request method {GET,HEAD,POST} x status '
         '{200,204,304,404,100-then-200,103-with-its-own-content-length-then-200} x content-length {absent,0,n,n-1,n+1} x body n in {0,1,10} split into 1-3 DATA frames '
         '(empty frame first/last) x padding {none,0,7} x END_STREAM on {HEADERS, last DATA, extra empty DATA, trailers} x HEAD '
-        'request trailers {no,yes}; thorough adds random larger bodies and chunkings; non-trivial = message reached its '
+        'request trailers {no,yes}; plus random larger bodies and chunkings (3000 quick, 400000 thorough), 40% of them with a refused local call (header '
+        'block naming another method, trailers without END_STREAM, invalid response) made on the stream before the message arrives; non-trivial = message reached its '
         'END_STREAM frame or was rejected and the verdict was compared; distinct = grid cell')
-MINIMA = {'messages_judged': 3000, 'malformed_expected': 800, 'wellformed_expected': 800, 'no_content_responses': 300, 'informational_with_content_length': 300}
+MINIMA = {'messages_judged': 3000, 'malformed_expected': 800, 'wellformed_expected': 800, 'no_content_responses': 300, 'informational_with_content_length': 300, 'refused_local_call_before_the_message': 250}
 EXHAUSTIVE = {}
 
 METHODS = [b'GET', b'HEAD', b'POST']
@@ -59,7 +60,7 @@ GRID = build_grid()
 
 
 def n_cases(tier):
-    return len(GRID) + (0 if tier == 'quick' else 400000)
+    return len(GRID) + (3000 if tier == 'quick' else 400000)
 
 
 def clval(cl, n):
@@ -102,15 +103,31 @@ def run_case(idx, rng, tier, rep):
             part -= room
         fitted.append(part)
     parts = fitted
+    noise = rng.choice(NOISE) if rng.random() < 0.4 else None
     cell = (direction, m, stt, cl, n, tuple(parts), pad, rng.choice(ES),
-            direction == 'response' and m == b'HEAD' and rng.random() < 0.5)
+            direction == 'response' and m == b'HEAD' and rng.random() < 0.5, noise)
     if cell[7] == 'headers' and n:
         return
     return run_cell(cell, rep, 'random')
 
 
+NOISE = ['headers-with-another-method', 'headers-with-another-method-on-open-stream', 'trailers-without-end-stream',
+         'invalid-response', 'response-without-status']
+
+
+def refused(t, rep, *call, **kw):
+    """A local call that must be refused; what it carried must not influence how the peer's message is judged."""
+    r = t.call(*call, **kw)
+    if r.exc is None:
+        rep.count('noise_call_accepted')
+        return False
+    rep.count('refused_local_call_before_the_message')
+    return True
+
+
 def run_cell(cell, rep, layer):
-    direction, method, status, cl, n, sp, pad, es, head_trailers = cell
+    direction, method, status, cl, n, sp, pad, es, head_trailers = cell[:9]
+    noise = cell[9] if len(cell) > 9 else None
     clv = clval(cl, n)
     if clv is not None and clv < 0:
         return          # negative content-length: undetermined class, not generated
@@ -124,14 +141,27 @@ def run_cell(cell, rep, layer):
     frames = []      # (bytes, carries_end_stream)
     if e_client:
         req = [(b':method', method), (b':scheme', b'https'), (b':authority', b'example.com'), (b':path', b'/')]
+        other = [(b':method', b'GET' if method == b'HEAD' else b'HEAD')] + req[1:]
         if head_trailers:
             sid, r = h.e_request(headers=req)
             assert r.ok
+            if noise == 'headers-with-another-method-on-open-stream' and not refused(t, rep, 'send_headers', sid, other):
+                return
+            if noise == 'trailers-without-end-stream' and not refused(t, rep, 'send_headers', sid, [(b'x-req-trailer', b'1')]):
+                return
             r = t.call('send_headers', sid, [(b'x-req-trailer', b'1')], end_stream=True)
             assert r.ok, r.exc
+        elif noise == 'headers-with-another-method-on-open-stream':
+            sid, r = h.e_request(headers=req)
+            assert r.ok
+            if not refused(t, rep, 'send_headers', sid, other, end_stream=cl == 'n'):
+                return
+            assert t.call('end_stream', sid).ok
         else:
             sid, r = h.e_request(headers=req, end_stream=True)
             assert r.ok
+        if noise == 'headers-with-another-method' and not refused(t, rep, 'send_headers', sid, other, end_stream=True):
+            return
         final = status
         if status == '100+200':
             frames.append((wire.build_headers(sid, hb([(b':status', b'100')])), False))
@@ -166,7 +196,13 @@ def run_cell(cell, rep, layer):
     rejected = False
     ended = False
     exc = None
-    for data, carries_es in frames:
+    for i, (data, carries_es) in enumerate(frames):
+        if i == 1 and not e_client and not frames[0][1]:
+            if noise == 'invalid-response' and not refused(t, rep, 'send_headers', sid, [(b':status', b'200'), (b'te', b'gzip'),
+                                                                                         (b'content-length', b'3')]):
+                return
+            if noise == 'response-without-status' and not refused(t, rep, 'send_headers', sid, [(b'content-length', b'3')]):
+                return
         res = h.send(data)
         if res.exc is not None:
             rejected = True
@@ -200,7 +236,7 @@ def run_cell(cell, rep, layer):
 
 def classify(cell, clv, total, no_content):
     """Mechanism class of a disagreement (used in the key): which rule of 8.1.2.6 is involved."""
-    direction, method, status, cl, n, sp, pad, es, head_trailers = cell
+    direction, method, status, cl, n, sp, pad, es, head_trailers = cell[:9]
     if no_content:
         kind = 'head-with-request-trailers' if head_trailers else ('head' if method == b'HEAD' else 'status-' + status)
         return 'no-content-response:%s' % kind
